@@ -77,6 +77,9 @@ def run_variant(v):
     expect = v.get("expect")
     kind, payload = res
     if expect is None:  # neutral variant: must stay silent
+        if v.get("absent") and kind == "findings" and any(v["absent"] in f.key for f in ctx.findings):
+            # a repair variant: the recorded (known) finding itself has to disappear, not merely stay suppressed
+            return (v["id"], prop, "FALSE-ALARM", "still reported on the repaired source: " + v["absent"])
         if kind == "findings" and not payload:
             return (v["id"], prop, "ok-silent", "")
         if kind == "findings":
